@@ -1,11 +1,14 @@
 /-
 C02 — the cost budget is sound, monotone and tight.
 
-Model: `ClvmModel/Interp/Machine.lean` (`runLoop`, `runProgram`).  The per-operator budget lemmas
-(`OpBudget`) and their lifting to whole runs are added as they are completed
-(`ClvmProofs/Lemmas/Interp/Budget*.lean`).
+Model: `ClvmModel/Interp/Machine.lean` (`runLoop`, `runProgram`).  Per-operator budget lemmas:
+`Lemmas/Interp/Budget*.lean` (`coreOps_budget`, `opUnknown_budget_*`); lifting to whole runs:
+`Lemmas/Interp/LiftBudget.lean` (stack-shape invariant, guard-stack relation) and `LiftChia.lean`.
+`effBudget M = if M = 0 then u64::MAX else M`.  `extra` are the operators outside the core table
+(the cryptographic ones); the only thing assumed about them is the per-operator shape `OpBudget`.
 -/
 import ClvmProofs.Lemmas.Interp.MachineBase
+import ClvmProofs.Lemmas.Interp.LiftChia
 
 namespace Clvm.Props.C02
 open Clvm Clvm.Interp
@@ -62,5 +65,64 @@ theorem over_limit_is_cost_exceeded (cfg : Cfg) (d : Dialect) (mc fuel : Nat) (s
     (h : cost > effMax mc s) :
     runLoop cfg d mc (fuel + 1) s cost = some (.error (.err .CostExceeded)) := by
   rw [runLoop_succ]; unfold loopBody; simp [h]
+
+/-- **Sound.** If a run succeeds under budget `M` with cost `C` then `C ≤ M` (0 = unlimited).
+Every dialect, no hypothesis on operators. -/
+theorem cost_within_budget {cfg : Cfg} {d : Dialect} {fuel : Nat} {c0 : Ctr} {p e : Val} {M C : Nat} {v : Val} {c : Ctr}
+    (h : runProgram cfg d fuel c0 p e M = some (.ok (C, v, c))) : C ≤ effBudget M :=
+  run_sound h
+
+/-- **Upward closed, same result.** For ChiaDialect with every flag set and both cost models
+(cost-exempt guards included): a success under `M` is the identical success (result, cost,
+counters) under every larger budget. -/
+theorem upward_closed (cfg : Cfg) (extra : String → Option OpFn)
+    (hextra : ∀ name f, extra name = some f → OpBudget f) (F : Nat) {fuel : Nat} {c0 : Ctr} {p e : Val}
+    {M M' : Nat} {r : Nat × Val × Ctr}
+    (h : runProgram cfg (chiaDialect cfg extra F) fuel c0 p e M = some (.ok r))
+    (hM : effBudget M ≤ effBudget M') : runProgram cfg (chiaDialect cfg extra F) fuel c0 p e M' = some (.ok r) :=
+  chia_run_upward cfg extra hextra F h hM
+
+/-- **Never another error.** A program that succeeds under some budget gives, under any other
+budget, the identical success or `CostExceeded` — for every flag set and both cost models. -/
+theorem same_or_cost_exceeded (cfg : Cfg) (extra : String → Option OpFn)
+    (hextra : ∀ name f, extra name = some f → OpBudget f) (F : Nat) {fuel : Nat} {c0 : Ctr} {p e : Val}
+    {M : Nat} {r : Nat × Val × Ctr}
+    (h : runProgram cfg (chiaDialect cfg extra F) fuel c0 p e M = some (.ok r)) (M' : Nat) :
+    runProgram cfg (chiaDialect cfg extra F) fuel c0 p e M' = some (.ok r) ∨
+    runProgram cfg (chiaDialect cfg extra F) fuel c0 p e M' = some (.error .CostExceeded) :=
+  chia_run_dichotomy cfg extra hextra F h M'
+
+/-- **Tight** (partial: see below). Without cost-exempt guards (no NEW_COST_MODEL) and with
+unknown operators rejected (NO_UNKNOWN_OPS, e.g. mempool mode), the succeeding budgets are exactly
+those ≥ `C`: `C ≤ M'` ⇒ the identical success; `M' < C` ⇒ `CostExceeded`.
+Not covered: (i) NEW_COST_MODEL, where extensions 0/1 are grandfathered guards — the property itself
+exempts them; `upward_closed` and `same_or_cost_exceeded` still hold there; (ii) unknown operators
+allowed under the old cost model: tightness is *false* there because `op_unknown` multiplies with
+`wrapping_mul` (known finding B; `opUnknown_budget_witness` in `Lemmas/Interp/Budget.lean`). -/
+theorem tight_partial (cfg : Cfg) (extra : String → Option OpFn)
+    (hextra : ∀ name f, extra name = some f → OpBudget f) (F : Nat)
+    (hS : hasFlag F Gen.FLAG_NO_UNKNOWN_OPS = true) (hN : hasFlag F Gen.FLAG_NEW_COST_MODEL = false)
+    {fuel : Nat} {c0 : Ctr} {p e : Val} {M C : Nat} {v : Val} {c : Ctr}
+    (h : runProgram cfg (chiaDialect cfg extra F) fuel c0 p e M = some (.ok (C, v, c))) (M' : Nat) :
+    (C ≤ effBudget M' → runProgram cfg (chiaDialect cfg extra F) fuel c0 p e M' = some (.ok (C, v, c))) ∧
+    (effBudget M' < C → runProgram cfg (chiaDialect cfg extra F) fuel c0 p e M' = some (.error .CostExceeded)) :=
+  chia_run_tight_partial cfg extra hextra F hS hN h M'
+
+/-- tightness for any dialect whose operators satisfy `OpBudget` and that has no cost-exempt
+extension (the general form behind `tight_partial`) -/
+theorem tight_general {cfg : Cfg} {d : Dialect} (hd : d.OpBudget) (hne : d.NoExempt) {fuel : Nat} {c0 : Ctr}
+    {p e : Val} {M C : Nat} {v : Val} {c : Ctr}
+    (h : runProgram cfg d fuel c0 p e M = some (.ok (C, v, c))) (M' : Nat) :
+    (C ≤ effBudget M' → runProgram cfg d fuel c0 p e M' = some (.ok (C, v, c))) ∧
+    (effBudget M' < C → runProgram cfg d fuel c0 p e M' = some (.error .CostExceeded)) :=
+  run_tight hd hne h M'
+
+/-- per operator: the budget shape holds for every core operator and every build … -/
+theorem core_op_budget (cfg : Cfg) (name : String) (f : OpFn) (h : coreOpByName cfg name = some f) :
+    OpBudget f := coreOps_budget cfg name f h
+
+/-- … and is false for `op_unknown` under the old cost model (finding B) -/
+theorem unknown_op_budget_false : ¬ OpBudget (opUnknown [0x3f, 0xff, 0xff, 0xff, 0xc0]) :=
+  opUnknown_budget_witness
 
 end Clvm.Props.C02
